@@ -73,6 +73,9 @@ func judgeSkip(c *sim.Ctx, site string, buffers bool, mc *malformedCase, o skipO
 
 func runC08(c *sim.Ctx) {
 	cfg := c.Cfg
+	// the span-cache switch is process-wide configuration: every scenario runs under both
+	thrift.SetSpanCache(cfg.Chance(1, 2))
+	defer thrift.SetSpanCache(false)
 	a := allocCfg(cfg, false)
 	a.Ceiling = c08Ceiling
 	c.SetupAlloc(a)
